@@ -273,9 +273,15 @@ theorem forestClaim_cons (t : Tree) (ts : Forest) (ht : TreeClaim (k := k) (cfg 
   refine ⟨b2, prev2, s2, src2, J2, hr3, by simpa using hm2, ?_, hs2, heq1.trans heq2⟩
   rw [hf2, hf1]; simp [norm, appendAll]
 
-theorem treeClaim_leaf (n : List UInt8) (v : Option (List UInt8)) :
-    TreeClaim (k := k) (cfg := cfg) (openL := openL) d (.node n v []) := by
-  intro kk dep e b prev s src J rest first hok hr hm hs
+/-- a node without children written as `name=value` -/
+theorem treeClaim_option (n : List UInt8) (v : Option (List UInt8)) (kk dep : Nat) (e : List (List UInt8)) (b : Build)
+    (prev : Nat) (s : St) (src : Src) (J rest : List UInt8) (first : Bool)
+    (hok : treeOk (.node n v []) = true) (hr : Ready e s src J (optionLine (d kk) n v ++ rest))
+    (hm : Mode first dep b prev) (hs : HasSpine dep b.forest) :
+    ∃ (b' : Build) (prev' : Nat) (s' : St) (src' : Src) (J' : List UInt8),
+      Ready e s' src' J' rest ∧ Mode false dep b' prev' ∧ b'.forest = appendAt dep b.forest (normTree (.node n v []))
+      ∧ HasSpine dep b'.forest
+      ∧ loop k cfg nodeAppend b prev s src = loop k cfg nodeAppend b' prev' s' src' := by
   have hok' : nameOk n = true ∧ OptValOk v := by
     simp only [treeOk, List.isEmpty_nil, ↓reduceIte, Bool.and_eq_true] at hok
     refine ⟨hok.1, ?_⟩
@@ -288,7 +294,7 @@ theorem treeClaim_leaf (n : List UInt8) (v : Option (List UInt8)) :
   have hsrc : src.rest = (J ++ (d kk).before ++ (d kk).indent) ++ n ++ (d kk).pre ++
       61 :: ((d kk).post ++ valueText v ++ (d kk).trail ++ 10 :: rest) := by
     rw [hr.src]
-    cases v <;> simp [renderTree, optionLine, valueText, List.append_assoc]
+    cases v <;> simp [optionLine, valueText, List.append_assoc]
   obtain ⟨s1, src1, heq, ⟨l, kq, fi', ln', hs1, htake⟩, hrest⟩ :=
     hst.optLine e s src prev _ n (d kk).pre (d kk).post (d kk).trail rest v hr.clean hr.valid hjunk hok'.1 hpre hpost
       htr hok'.2 hsrc
@@ -318,6 +324,80 @@ theorem treeClaim_leaf (n : List UInt8) (v : Option (List UInt8)) :
     · rw [hs1]; simp [Mode, Flag.sectEnd, Flag.option, Flag.name]
     · simp only [normTree_leaf, hz, Bool.false_eq_true, ↓reduceIte, hname]
     · exact hasSpine_appendAt dep _ _ hs
+
+omit hst hd in
+/-- `mpt_node_append` for a section end directly behind the section start -/
+theorem nodeAppend_end_first (dep : Nat) (b : Build) (prev : Nat) (s1 : St) (hmode : Mode true dep b prev) :
+    nodeAppend b s1 prev 2 = some b := by
+  unfold Mode at hmode
+  simp only [↓reduceIte, Flag.sectEnd] at hmode
+  obtain ⟨_, h2, _⟩ := hmode
+  unfold nodeAppend
+  simp [Flag.sectEnd, h2]
+
+/-- a node without children and without value written as an empty section: start line, end line -/
+theorem treeClaim_empty (n : List UInt8) (v : Option (List UInt8)) (c : CloseDecor) (kk dep : Nat)
+    (e : List (List UInt8)) (b : Build)
+    (prev : Nat) (s : St) (src : Src) (J rest : List UInt8) (first : Bool)
+    (hok : treeOk (.node n v []) = true) (hv : valueless v = true) (hc : (d kk).close = some c)
+    (hr : Ready e s src J (openL (d kk) n ++ closeLine c.line ++ rest))
+    (hm : Mode first dep b prev) (hs : HasSpine dep b.forest) :
+    ∃ (b' : Build) (prev' : Nat) (s' : St) (src' : Src) (J' : List UInt8),
+      Ready e s' src' J' rest ∧ Mode false dep b' prev' ∧ b'.forest = appendAt dep b.forest (normTree (.node n v []))
+      ∧ HasSpine dep b'.forest
+      ∧ loop k cfg nodeAppend b prev s src = loop k cfg nodeAppend b' prev' s' src' := by
+  have hn : nameOk n = true := by
+    simp only [treeOk, List.isEmpty_nil, ↓reduceIte, Bool.and_eq_true] at hok
+    exact hok.1
+  have hlen : n.length < 65535 := by
+    have := hn
+    simp only [nameOk, Bool.and_eq_true, decide_eq_true_eq] at this
+    exact this.2
+  have hz : (valueOf v).isEmpty = true := by
+    cases v with
+    | none => rfl
+    | some x => simpa [valueless, valueOf] using hv
+  have hdk := hd kk
+  have hck := LineDecor.ok_close _ c hdk hc
+  have hsrc : src.rest = J ++ openL (d kk) n ++ (closeLine c.line ++ rest) := by
+    rw [hr.src]; simp [List.append_assoc]
+  obtain ⟨s1, src1, J1, heq, ⟨l, fi', v', ln', hs1⟩, hJ1, hrest⟩ :=
+    hst.openLine e s src prev J (d kk) n _ hr.clean hr.valid hr.junk hdk hn hsrc
+  have hna := nodeAppend_new first dep b prev s1 1 e n none hm (Or.inl ⟨rfl, rfl⟩) (by rw [hs1]; rfl) hlen
+  have hstep := loop_step k cfg b _ prev s s1 src src1 1 _ heq (by decide) hna
+    (by rw [hs1]; exact afterSave_inv _ _ _ _)
+  have hmode1 : Mode true (dep + 1) { forest := appendAt dep b.forest (.node n none []), depth := dep + 1 } s1.curr := by
+    rw [hs1]; simp [Mode, Flag.sectEnd, Flag.section_, Flag.name]
+  -- the end line
+  obtain ⟨_, _, _, hht2⟩ := LineDecor.ok_parts _ hck
+  have hjunk2 := visSkip_lead J1 c.line hJ1 hck
+  have hsrc2 : src1.rest = (J1 ++ c.line.before ++ c.line.indent) ++ 125 :: ((headTrail c.line ++ [10]) ++ rest) := by
+    rw [hrest]; simp [closeLine, List.append_assoc]
+  obtain ⟨s3, src3, p3, heq3, hc3, hafter3, hclean3, hrest3⟩ :=
+    hst.closeLine e n { s1 with path := Pth (e ++ [n]) [] false fi', curr := 0, valid := 0 } src1 s1.curr _ _
+      (clean_pth _ _) rfl hjunk2 hsrc2
+  have hna3 := nodeAppend_end_first (dep + 1) _ s1.curr s3 hmode1
+  have hstep3 := loop_step k cfg _ _ s1.curr _ s3 src1 src3 2 p3 heq3 (by decide) hna3 hafter3
+  refine ⟨{ forest := appendAt dep b.forest (.node n none []), depth := dep + 1 }, s3.curr,
+    { s3 with path := p3, curr := 0, valid := 0 }, src3,
+    headTrail c.line ++ [10], ⟨hclean3, rfl, visSkip_headTrail _ hht2, hrest3⟩, ?_, ?_, ?_, ?_⟩
+  · rw [hc3]; simp [Mode, Flag.sectEnd]
+  · simp only [normTree_leaf, hz, ↓reduceIte]
+  · exact hasSpine_appendAt dep _ _ hs
+  · rw [hstep]
+    simp only [hs1] at hstep3 ⊢
+    exact hstep3
+
+theorem treeClaim_leaf (n : List UInt8) (v : Option (List UInt8)) :
+    TreeClaim (k := k) (cfg := cfg) (openL := openL) d (.node n v []) := by
+  intro kk dep e b prev s src J rest first hok hr hm hs
+  have hrt : renderTree openL d kk (.node n v []) = leafLines openL (d kk) n v := by simp [renderTree]
+  rw [hrt] at hr
+  unfold leafLines at hr
+  split at hr
+  · rename_i c hc hv
+    exact treeClaim_empty hst d hd n v c kk dep e b prev s src J rest first hok hv hc hr hm hs
+  · exact treeClaim_option hst d hd n v kk dep e b prev s src J rest first hok hr hm hs
 
 theorem treeClaim_section (n : List UInt8) (v : Option (List UInt8)) (cs : Forest) (hne : cs ≠ [])
     (hcs : ForestClaim (k := k) (cfg := cfg) (openL := openL) d cs) :
@@ -431,25 +511,26 @@ theorem nestStyle_B : NestStyle .pre cfgB openLine where
     obtain ⟨s2, src2, h⟩ := pre_eof s src junk b hclean hj hsrc
     exact ⟨s2, src2, by simp only [next]; exact h⟩
 
-/-- the element loop on a whole text in brace style, from any clean parser state -/
+/-- the element loop on a whole text in brace style (with insignificant text `tail` behind the last
+    element), from any clean parser state -/
 theorem loop_brace (d : Decor) (hd : d.ok) (f : Forest) (hok : nodesOk f = true) (s : St)
-    (hclean : Clean [] s.path) (hv : s.valid = 0) :
-    (loop .pre cfgB nodeAppend ({} : Build) Flag.section_ s { rest := renderBrace d 0 f }).code = 0
-    ∧ (loop .pre cfgB nodeAppend ({} : Build) Flag.section_ s { rest := renderBrace d 0 f }).ctx.forest = norm f := by
-  have := loop_nest nestStyle_B d hd f hok s Flag.section_ (by decide) hclean hv [] false rfl
-  simpa using this
+    (hclean : Clean [] s.path) (hv : s.valid = 0) (tail : List UInt8) (b : Bool) (htail : visSkip false tail = some b) :
+    (loop .pre cfgB nodeAppend ({} : Build) Flag.section_ s { rest := renderBrace d 0 f ++ tail }).code = 0
+    ∧ (loop .pre cfgB nodeAppend ({} : Build) Flag.section_ s { rest := renderBrace d 0 f ++ tail }).ctx.forest = norm f :=
+  loop_nest nestStyle_B d hd f hok s Flag.section_ (by decide) hclean hv tail b htail
 
 /-- **brace style is read back**: `mpt_parse_node` on an empty target, default format, all name flags,
     applied to the text of an admissible forest with any valid decoration, succeeds with the normal
     form of the forest -/
-theorem parseNode_brace (d : Decor) (hd : d.ok) (f : Forest) (hok : nodesOk f = true) :
-    (parseNode [] none 0xff 0xff (-2) (renderBrace d 0 f)).code = 0
-    ∧ (parseNode [] none 0xff 0xff (-2) (renderBrace d 0 f)).children = norm f := by
+theorem parseNode_brace (d : Decor) (hd : d.ok) (f : Forest) (hok : nodesOk f = true)
+    (tail : List UInt8) (b : Bool) (htail : visSkip false tail = some b) :
+    (parseNode [] none 0xff 0xff (-2) (renderBrace d 0 f ++ tail)).code = 0
+    ∧ (parseNode [] none 0xff 0xff (-2) (renderBrace d 0 f ++ tail)).children = norm f := by
   have hcfg : ({ fmt := (parseFormat none).1, sect := 0xff, opt := 0xff, eof := -2 } : Cfg) = cfgB := rfl
   have hkind : Kind.ofType (parseFormat none).2 = some .pre := by decide
-  obtain ⟨hcode, hforest⟩ := loop_brace d hd f hok ({} : St) clean_init rfl
-  have hloop : parseConfig .pre cfgB nodeAppend ({} : Build) Flag.section_ (renderBrace d 0 f)
-      = loop .pre cfgB nodeAppend ({} : Build) Flag.section_ ({} : St) { rest := renderBrace d 0 f } := rfl
+  obtain ⟨hcode, hforest⟩ := loop_brace d hd f hok ({} : St) clean_init rfl tail b htail
+  have hloop : parseConfig .pre cfgB nodeAppend ({} : Build) Flag.section_ (renderBrace d 0 f ++ tail)
+      = loop .pre cfgB nodeAppend ({} : Build) Flag.section_ ({} : St) { rest := renderBrace d 0 f ++ tail } := rfl
   unfold parseNode
   simp only [hkind, hcfg, hloop, hcode, hforest]
   simp
